@@ -96,7 +96,10 @@ Invs == [
   I35 |-> Call1("F", <<Id("a")>>),
   I36 |-> Call1("F", <<Id("b"), CM, Id("a")>>),
   I37 |-> Call1("G", <<Id("x")>>),
-  I38 |-> Call1("F", <<Id("x"), PLUS, Id("a")>>) ]
+  I38 |-> Call1("F", <<Id("x"), PLUS, Id("a")>>),
+  \* a number next to a macro that may expand to nothing
+  I39 |-> <<Num("1"), Id("O")>>,
+  I40 |-> <<Id("O"), Num("1")>> ]
 
 Sel == CASE Profile = "q" -> [f |-> DOMAIN FDefs, g |-> {"G0", "G1", "G2", "G4", "G6"}, o |-> {"O0", "O1", "O4", "O3", "O6", "O7"}, i |-> DOMAIN Invs]
          [] Profile = "t" -> [f |-> DOMAIN FDefs, g |-> DOMAIN GDefs, o |-> DOMAIN ODefs, i |-> DOMAIN Invs]
